@@ -51,13 +51,22 @@ def _valid_sources(rng):
 
 
 def _damage(rng, text, k):
-    kinds = ['longchain', 'efunglobal', 'efunglobal', 'intmin', 'efunlocal', 'efunlocal', 'redeclare', 'redeclare', 'del', 'ins', 'dup', 'trunc', 'unstr', 'uncomment', 'untext', 'unlit', 'if', 'endif', 'else', 'defself', 'defmutual', 'macroargs', 'incself', 'incmissing',
+    kinds = ['longchain', 'litlocals', 'efunglobal', 'efunglobal', 'intmin', 'efunlocal', 'efunlocal', 'redeclare', 'redeclare', 'del', 'ins', 'dup', 'trunc', 'unstr', 'uncomment', 'untext', 'unlit', 'if', 'endif', 'else', 'defself', 'defmutual', 'macroargs', 'incself', 'incmissing',
              'incdeep', 'litdeep', 'locals', 'args', 'strings', 'funcs', 'longline', 'longident', 'longstr', 'dupfun', 'conflict', 'random', 'nul', 'high', 'inhmissing', 'inhlate', 'superunknown', 'defprobe', 'pragma', 'unlit3', 'unlit3', 'iffatal']
     kind = rng.choice(kinds)
     n = len(text)
     pos = rng.randint(0, max(0, n - 1))
     nl = text.find('\n', pos) + 1 or n
-    if kind == 'longchain':
+    if kind == 'litlocals':
+        # function literals nested two to four deep, each with nearly as many locals as a function may have: the compiler's
+        # tables of local names grow while they are in use
+        depth = rng.choice((2, 3, 3, 4)); nl = rng.choice((20, 23, 24))
+        body = 'return 1;'
+        for d in range(depth, 0, -1):
+            names = ', '.join('%s%d' % ('abcd'[d - 1], j) for j in range(nl))
+            body = 'int %s; %s0 = %d; return function() { %s };' % (names, 'abcd'[d - 1], d, body)
+        t = text + '\nmixed zlit() { %s }\n' % body
+    elif kind == 'longchain':
         # one expression with very many operands (a parse tree one level deep per operand): legal up to the compiler's own
         # limits, and whatever it answers beyond them, it must answer as a compile error
         m = rng.choice((3000, 9000, 11000, 30000, 100000)); opnd, op = rng.choice((('zc', '+'), ('zc', '-'), ('zs', '+'), ('zc', '|'), ('zc', '&&'), ('zc', ',')))
